@@ -471,14 +471,10 @@ def probes() -> List[Tuple[str, Dict[str, Any]]]:
         if n["hostname"] == "router_1":
             n["default_route"] = {"next_hop_ip_address": "192.168.1.2"}
     out.append(("probe/wireless_router_default_route", c))
-    # forms the DOCUMENTATION describes (common_node_attributes.rst ``file_system``, database_service.rst ``password``)
-    c = base()
-    c["simulation"]["network"]["nodes"][0]["file_system"] = ["empty_folder", {"downloads": ["test_1.txt", "test_2.txt"]},
-                                                             {"root": [{"passwords": {"size": 69, "type": "TXT"}}]}]
-    out.append(("probe/documented_file_system_key", c))
-    c = base()
-    c["simulation"]["network"]["nodes"][1]["services"] = [{"type": "database-service", "options": {"password": "pw1"}}]
-    out.append(("probe/documented_database_password_option", c))
+    # (two forms that only the DOCUMENTATION describes - a node-level ``file_system:`` key and a database-service
+    # ``password`` option - are rejected by the loader's schema with a ValidationError: they are not well-formed
+    # scenario files for this code base, so they are outside the statement's quantifier; they were tried once and are
+    # recorded in DESIGN.md 11.3 as documentation drift, not as probes of this check)
     return out
 
 
@@ -838,3 +834,53 @@ def main(tier: str, seed: int) -> int:
         "agents' (action, parameters, response status, reward) per step; 10 seeded steps",
     ]
     return chk.finish()
+
+
+# ---------------------------------------------------------------------------------------
+# replay
+# ---------------------------------------------------------------------------------------
+
+
+def _resolve(stim: Dict[str, Any]) -> Dict[str, Any]:
+    label = stim["scenario"]
+    if "member" in stim:
+        return member_to_cfg(stim["member"])
+    if label.startswith("probe/"):
+        return dict(probes())[label]
+    return dict(shipped_scenarios())[label]
+
+
+def replay(path: str) -> int:
+    """Re-execute the stimulus of a replay file and print what TLC cannot explain."""
+    d = json.loads(Path(path).read_text())
+    det, sig = d["detail"], d["signature"]
+    stim = det["stimulus"]
+    common.boot()
+    cfg = _resolve(stim)
+    notes: Dict[str, int] = {}
+    with contextlib.redirect_stdout(io.StringIO()):
+        if sig.get("clause") == "SameTrajectoryUnderReordering":
+            traces = [t for t in pair_traces(stim["scenario"], cfg, [stim["variant"].split("/")[0]], stim["steps"], stim["seed"],
+                                             stim.get("origin", ""), notes)]
+        else:
+            traces, _ = inventory_traces(stim["scenario"], cfg, stim.get("origin", ""))
+            traces = _restrict_node_set_traces(cfg, traces, notes)
+            host = (det.get("cfg") or {}).get("host")
+            traces = [t for t in traces if t["cfg"]["host"] == host] or traces
+    res = tlc.validate("ConfigSemTrace", traces)
+    rc_ = 0
+    for tr, (reached, length), st in zip(traces, res["results"], res["stuck"]):
+        if reached == length + 1:
+            print(f"accepted: {tr['cfg']}")
+            continue
+        rc_ = 1
+        print(f"REJECTED: {tr['cfg']}  failing clauses: {sorted((st or {}).get('fail') or [])}")
+        diffs = (st or {}).get("st") if isinstance((st or {}).get("st"), dict) else {}
+        for clause, v in diffs.items():
+            for f in _facts(v)[:12]:
+                print(f"   {clause}: expected-or-built fact without its counterpart: {f}")
+        if tr["ev"][0]["ev"] == "Pair":
+            print(f"   first state differences: {tr['meta'].get('first_state_differences')}")
+        if tr["ev"][0]["ev"] == "Raised":
+            print(f"   {tr['meta'].get('exception')}")
+    return rc_
